@@ -528,7 +528,15 @@ pub fn execute(plan: &Plan, ctx: &mut Ctx) {
                 "HGET" => {
                     if let Some(a) = adapter.as_ref() {
                         let n0 = asked.borrow().len();
+                        // HGET 1: the clock is a free-running counter during this call (advances at every
+                        // read): the result must belong to ONE instant - the first reading
+                        let ticking = op.arg(0) == 1;
+                        CLOCK_TICK_PER_GET.with(|c| c.set(if ticking { 7 } else { 0 }));
                         let got = norm(&a.get());
+                        CLOCK_TICK_PER_GET.with(|c| c.set(0));
+                        if ticking {
+                            ctx.count("reach.adapter_get_on_ticking_clock");
+                        }
                         let new_asked: Vec<i64> = asked.borrow()[n0..].to_vec();
                         match clk {
                             Err(e) => {
@@ -545,6 +553,12 @@ pub fn execute(plan: &Plan, ctx: &mut Ctx) {
                                 if got != want {
                                     return Some(format!("adapter_get|restamp|get returned {}, expected {}", got.show(), want.show()));
                                 }
+                            }
+                        }
+                        if ticking {
+                            // the counter has moved on: follow it
+                            if let Ok(t) = clock.peek() {
+                                clk = Ok(t.0);
                             }
                         }
                     }
@@ -769,7 +783,7 @@ pub fn generate(prop: &str, tier: Tier, rng: &mut Rng, seed: u64, run: u64) -> P
                     }
                     plan.push("HUPD", &[]);
                 }
-                plan.push("HGET", &[]);
+                plan.push("HGET", &[if rng.chance(0.25) { 1 } else { 0 }]);
             }
             18 => {
                 if rng.chance(0.5) {
